@@ -2,7 +2,8 @@
 
 Extracted: the monitor's sleep period and counter_start (jug/backends/file_keepalive_monitor.py
 main()), the expiry of file_keepalive_based_lock.is_failed and file_based_lock._FAILED_TIMESTAMP
-(jug/backends/file_store.py).
+(jug/backends/file_store.py).  Also matched (no constants): the keep-alive lock's fail / release / get /
+start_monitor / stop_monitor, whose order of primitives and Popen call Model/Keepalive.v transcribes.
 
 Fail closed: the functions the model transcribes are matched against AST templates in which only
 the constants are holes.  A different loop order, comparison operator, exception class, argument of
@@ -71,6 +72,45 @@ def fail(self):
 '''
 
 T_FAILED_TS = '_FAILED_TIMESTAMP = (HOLE_failed_atime, HOLE_failed_mtime)'
+
+# ---- the keep-alive lock's operations as sequences of primitives (Model/Keepalive.v: fail() = EFailStop ; EFailMark,
+# release() = kill ; unlink, get() = create ; start the helper) and the start of the helper (start_monitor_launch)
+T_KA_FAIL = '''
+def fail(self):
+    self.stop_monitor()
+    return super(file_keepalive_based_lock, self).fail()
+'''
+
+T_KA_RELEASE = '''
+def release(self):
+    self.stop_monitor()
+    return super(file_keepalive_based_lock, self).release()
+'''
+
+T_KA_GET = '''
+def get(self):
+    acquired = super(file_keepalive_based_lock, self).get()
+    if acquired:
+        self.start_monitor()
+    return acquired
+'''
+
+T_START_MONITOR = '''
+def start_monitor(self):
+    self.monitor = Popen([sys.executable, "-m", "jug.backends.file_keepalive_monitor", self.fullname])
+'''
+
+T_STOP_MONITOR = '''
+def stop_monitor(self):
+    if self.monitor is None:
+        return
+    try:
+        self.monitor.kill()
+    except OSError as e:
+        logging.warning('keepalive process failed to die with %s' % e)
+    del self.monitor
+    self.monitor = None
+'''
 
 _SKIP_FIELDS = ('ctx', 'type_comment', 'kind', 'lineno', 'col_offset', 'end_lineno', 'end_col_offset')
 
@@ -210,7 +250,7 @@ def extract():
     match(tmpl_stmt(T_MAIN), find_one(mon.body, ast.FunctionDef, 'main', MONITOR), binds, MONITOR + ':main')
     # ---- the lock classes --------------------------------------------------------------------
     fs = parse(FILE_STORE)
-    require_bindings(fs, {'os': 'import os', 'time': 'from time import time', 'Popen': 'from subprocess import Popen',
+    require_bindings(fs, {'os': 'import os', 'sys': 'import sys', 'time': 'from time import time', 'Popen': 'from subprocess import Popen',
                           'file_based_lock': 'class', 'file_keepalive_based_lock': 'class'}, FILE_STORE)
     base = find_one(fs.body, ast.ClassDef, 'file_based_lock', FILE_STORE)
     ka = find_one(fs.body, ast.ClassDef, 'file_keepalive_based_lock', FILE_STORE)
@@ -228,6 +268,10 @@ def extract():
     match(tmpl_stmt(T_FAIL), find_one(base.body, ast.FunctionDef, 'fail', FILE_STORE), binds, FILE_STORE + ':file_based_lock.fail')
     match(tmpl_stmt(T_IS_FAILED), find_one(ka.body, ast.FunctionDef, 'is_failed', FILE_STORE), binds,
           FILE_STORE + ':file_keepalive_based_lock.is_failed')
+    for name, tmpl in (('fail', T_KA_FAIL), ('release', T_KA_RELEASE), ('get', T_KA_GET), ('start_monitor', T_START_MONITOR),
+                       ('stop_monitor', T_STOP_MONITOR)):
+        match(tmpl_stmt(tmpl), find_one(ka.body, ast.FunctionDef, name, FILE_STORE), binds,
+              FILE_STORE + ':file_keepalive_based_lock.' + name)
     for k in ('rounds', 'period', 'expiry', 'failed_atime', 'failed_mtime'):
         if k not in binds:
             raise TranslateError('constant %s was not found' % k)
@@ -246,7 +290,10 @@ def render(b):
    Structure facts checked by the translator (AST templates, anything else is a translator failure):
      loop order  sleep ; parent_gone_or_changed -> break ; counter -= 1 ; if counter <= 0: reset, utime(lock, None),
      OSError -> break ;  parent_gone_or_changed = (getppid() != pid or == 1) or kill(pid, 0) raises OSError ;
-     is_failed = is_locked() and st_mtime <= time() - expiry ;  fail() = os.utime(fullname, _FAILED_TIMESTAMP). *)
+     is_failed = is_locked() and st_mtime <= time() - expiry ;  file_based_lock.fail() = os.utime(fullname, _FAILED_TIMESTAMP) ;
+     file_keepalive_based_lock:  fail() = stop_monitor() ; super().fail()   release() = stop_monitor() ; super().release()
+     get() = super().get(), then start_monitor() if acquired ;  stop_monitor() = monitor.kill() unless None ;
+     start_monitor() = Popen([sys.executable, "-m", "jug.backends.file_keepalive_monitor", self.fullname]) (no cwd, no env). *)
 From Coq Require Import ZArith.
 From JugV Require Import Model.Keepalive.
 Local Open Scope Z_scope.
